@@ -47,6 +47,9 @@ func TestReferenceAgreesWithImplementation(t *testing.T) {
 	progs["call-nil-func"] = []Stmt{Try{Body: []Stmt{ExprStmt{X: Call{Fn: HostNilFunc{}}}, P(1)}, CatchVar: "e", Catch: []Stmt{V(v("e")), P(2)}}, P(3)}
 	progs["defer-name-rebound"] = []Stmt{Func("a1", []string{"x"}, []Stmt{V(S("a1"), v("x"))}), Func("a2", []string{"x"}, []Stmt{V(S("a2"), v("x"))}),
 		Func("run", []string{"cb"}, []Stmt{Defer{Call: CallNamed("cb", I(1))}, Return{Vals: []Expr{I(9)}}}), V(CallNamed("run", v("a1"))), V(CallNamed("run", v("a2")))}
+	progs["close-closed-channel"] = []Stmt{Set("c", ChanOf{}), Try{Body: []Stmt{Close{X: v("c")}, P(1)}, CatchVar: "e", Catch: []Stmt{V(v("e"))}}, Close{X: v("c")}, P(2)}
+	progs["go-side-body-failure-keeps-its-error"] = []Stmt{Func("f", nil, []Stmt{Defer{Call: Call{Fn: &FuncLit{Body: []Stmt{Throw{X: S("D1")}}}}}, ExprStmt{X: Boom{ID: 7}}, Return{Vals: []Expr{I(9)}}}),
+		Try{Body: []Stmt{V(CallNamed("f"))}, CatchVar: "e", Catch: []Stmt{V(v("e"))}}, ExprStmt{X: CallNamed("f")}}
 	for name, prog := range progs {
 		src := Source(prog)
 		obs := Exec(src, 5000)
